@@ -132,6 +132,26 @@ func FactsAt(b *ssa.BasicBlock) []Fact {
 	var out []Fact
 	for x := b; x != nil; x = x.Idom() {
 		if len(x.Preds) != 1 {
+			// join below an If one of whose branches always dies (fatal sink):
+			// the surviving branch's outcome holds at the join.
+			if d := x.Idom(); d != nil && len(d.Instrs) > 0 && len(x.Preds) > 1 {
+				if ifi, ok := d.Instrs[len(d.Instrs)-1].(*ssa.If); ok && d.Succs[0] != d.Succs[1] {
+					t, f := d.Succs[0], d.Succs[1]
+					switch {
+					case t != x && f == x && !ReachesWithoutFatal(t, x):
+						out = append(out, normFact(Fact{Cond: ifi.Cond, Val: false, If: ifi}))
+					case f != x && t == x && !ReachesWithoutFatal(f, x):
+						out = append(out, normFact(Fact{Cond: ifi.Cond, Val: true, If: ifi}))
+					case t != x && f != x:
+						tr, fr := ReachesWithoutFatal(t, x), ReachesWithoutFatal(f, x)
+						if tr && !fr {
+							out = append(out, normFact(Fact{Cond: ifi.Cond, Val: true, If: ifi}))
+						} else if fr && !tr {
+							out = append(out, normFact(Fact{Cond: ifi.Cond, Val: false, If: ifi}))
+						}
+					}
+				}
+			}
 			continue
 		}
 		p := x.Preds[0]
@@ -362,4 +382,32 @@ func CanFollow(a, b ssa.Instruction) bool {
 		return InLoop(a.Block())
 	}
 	return Reachable(a.Block(), b.Block())
+}
+
+// ReachesWithoutFatal: there is a path from the start of `from` to `target`
+// that does not execute an explicit fatal sink.
+func ReachesWithoutFatal(from, target *ssa.BasicBlock) bool {
+	seen := map[*ssa.BasicBlock]bool{}
+	var walk func(b *ssa.BasicBlock) bool
+	walk = func(b *ssa.BasicBlock) bool {
+		if b == target {
+			return true
+		}
+		if seen[b] {
+			return false
+		}
+		seen[b] = true
+		for _, in := range b.Instrs {
+			if IsFatalInstr(in) {
+				return false
+			}
+		}
+		for _, s := range b.Succs {
+			if walk(s) {
+				return true
+			}
+		}
+		return false
+	}
+	return walk(from)
 }
